@@ -16,6 +16,11 @@ CHECKS = {
    "Generated-input search: valid statements as token lists are re-laid out at true token boundaries; every variant must parse to the same Statement (Debug) as the canonical text and carry the intended literal strings; per case all permutations of the present clauses are enumerated. Exploration, not proof.",
    "Debug(Statement) is structural; the generator's token boundaries are those of the documented syntax; two-character operators are <= >= != => :: and --.",
    "DESIGN.md §3 C20"),
+ "C14": (True,
+   "property-based testing / fuzz-style totality check: six input generators (Unicode noise, token soups, mutated and truncated valid statements, all prefixes, deep nesting, invalid-by-construction definitions), proptest, supervised child process",
+   "Generated-input search for panics, aborts, hangs, error locations outside the text and unproducible 'near' excerpts; invalid-by-construction definitions must be rejected. Every character prefix of the generated valid statements is tried. The search runs in a supervised child so that stack overflows and hangs are observed and re-judged in isolation. Exploration, not proof.",
+   "Documented nesting bound of the check: depth 200 on an 8 MiB stack. A time-out is reported as inconclusive (exit 2) unless it reproduces twice in isolation.",
+   "DESIGN.md §3 C14"),
 }
 
 NOT_YET = {
